@@ -184,7 +184,7 @@ def resolve(data: dict[str, Any], segs: list, flags: dict[str, bool]):
         if s == "size":
             if isinstance(cur, dict) and "size" in cur:
                 cur = cur["size"]
-            elif isinstance(cur, (list, dict, str)):
+            elif isinstance(cur, (list, tuple, dict, str)):
                 cur = len(cur)
             else:
                 return MISSING
@@ -202,7 +202,7 @@ def resolve(data: dict[str, Any], segs: list, flags: dict[str, bool]):
                     cur = cur[0] if s == "first" else cur[-1]
                 else:
                     return MISSING
-            elif isinstance(cur, list):
+            elif isinstance(cur, (list, tuple)):  # a (key, value) pair produced by hash.first is a sequence too
                 if not cur:
                     return MISSING
                 cur = cur[0] if s == "first" else cur[-1]
@@ -211,7 +211,7 @@ def resolve(data: dict[str, Any], segs: list, flags: dict[str, bool]):
         elif isinstance(s, bool):
             return MISSING
         elif isinstance(s, int):
-            if isinstance(cur, list):
+            if isinstance(cur, (list, tuple)):
                 if -len(cur) <= s < len(cur):
                     cur = cur[s]
                 else:
